@@ -32,7 +32,7 @@ type VarSpec struct {
 //	      application changes values
 type OpSpec struct {
 	Name      string `json:"name"`
-	Kind      string `json:"kind"` // pure | fail | now
+	Kind      string `json:"kind"` // pure | fail | now | count | sub | tuple (returns its params slice)
 	Ret       Ty     `json:"ret"`
 	Arity     int    `json:"arity"`
 	Stateless bool   `json:"stateless,omitempty"` // listed in Config.StatelessOperators
@@ -317,6 +317,8 @@ func (e *Env) CallOp(name string, args []interface{}) (interface{}, error) {
 		}
 		e.counts[name]++
 		c.Res = e.counts[name]
+	case spec.Kind == "tuple":
+		c.Res = CopyVals(args) // the operator's value is the list of its arguments
 	case spec.Kind == "now":
 		c.Res = e.Plan.Clock
 	case spec.Kind == "sub":
@@ -451,9 +453,15 @@ func (h *OpHost) Operator(name string) eval.Operator {
 		}
 		args := make([]interface{}, len(params))
 		for i, p := range params {
-			args[i] = p
+			args[i] = fromEngine(p, 0)
 		}
 		v, err := env.CallOp(name, args)
+		if sp := h.Specs[name]; sp != nil && sp.Kind == "tuple" && err == nil {
+			// `return params, nil`: the value IS the slice the engine handed over
+			// (an operator owns it); whoever consumes the value later must find
+			// the arguments in it
+			return params, nil
+		}
 		if err != nil && len(name)%2 == 1 {
 			// an operator is free to return a value together with its error; the
 			// error is what counts
@@ -469,6 +477,23 @@ func (h *OpHost) Operator(name string) eval.Operator {
 		}
 		return v, nil
 	}
+}
+
+// fromEngine turns a value a tuple operator returned ([]eval.Value, possibly
+// nested) into the harness's own list form; everything else passes through.
+func fromEngine(p interface{}, depth int) interface{} {
+	t, ok := p.([]eval.Value)
+	if !ok {
+		return p
+	}
+	if depth > 6 {
+		return "<a list nested in itself>"
+	}
+	r := make([]interface{}, len(t))
+	for i := range t {
+		r[i] = fromEngine(t[i], depth+1)
+	}
+	return r
 }
 
 // SpecMap indexes operator specs by name.
